@@ -406,6 +406,16 @@ def _doc(model, proto, vals, parts, p, mode, fmt, seedinfo):
             "values_repr": repr(vals)[:2000]}
 
 
+# C++ harnesses of the thorough tier are built with AddressSanitizer + UBSan ("does not ... access invalid memory"); a report ends
+# the harness process, which every judging site treats as a crash of the reader.  VERIF_C16_SANITIZE=1/0 overrides the tier.
+SANITIZE = [False]
+
+
+def _sanitize_for(task):
+    v = os.environ.get("VERIF_C16_SANITIZE")
+    SANITIZE[0] = (v == "1") if v in ("0", "1") else task["tier"] != "quick"
+
+
 def versioned_task(task, ybin, root):
     """Readers that read a *previous version's* stream (C++ only): the newest package of a seeded version chain (C05's
     generator: removed / added / reordered / retyped fields, widened steps, changed named types, narrowed unions) is
@@ -414,14 +424,15 @@ def versioned_task(task, ybin, root):
     ends in an error; the lines emitted before the error are a prefix of the lines of the intact relay."""
     import importlib
     C05 = importlib.import_module("checks.C05")
+    _sanitize_for(task)
     seed, i, quick = task["seed"], task["i"], task["tier"] == "quick"
     rng = M.derive(seed, "c16v", i)
     newest = C05.make_chain(rng.fork("chain"))
-    stats, viols, cases = {"models_with_cpp": 1, "versioned_models": 1}, [], []
+    stats, viols, cases = {"models_with_cpp": 1, "versioned_models": 1, "cpp_harnesses_built_with_ASan_and_UBSan": 1 if SANITIZE[0] else 0}, [], []
     model, old_models = C05.open_models(newest, ybin, root)
     try:
         try:
-            cm = C.CppModel(model.dir)
+            cm = C.CppModel(model.dir, sanitize=SANITIZE[0])
         except C.GeneratedCodeDoesNotCompile:
             stats["generated_cpp_did_not_compile(discarded)"] = 1
             return {"stats": stats, "violations": [], "cases": [], "samples": []}
@@ -482,6 +493,7 @@ def versioned_task(task, ybin, root):
 
 
 def model_task(task, ybin, root):
+    _sanitize_for(task)
     seed, i, quick = task["seed"], task["i"], task["tier"] == "quick"
     if i % 6 == 3:
         return versioned_task(task, ybin, root)
@@ -494,12 +506,12 @@ def model_task(task, ybin, root):
     if want_cpp or i % 2 == 1:
         add_bulk_protocol(pkg, rng.fork("bulk"))
     model = P.PyModel(pkg, ybin, root, want_cpp=want_cpp, cpp_opts=C.CPP_OPTS)
-    stats, viols, cases, samples = {"models_with_cpp": 1 if want_cpp else 0}, [], [], []
+    stats, viols, cases, samples = {"models_with_cpp": 1 if want_cpp else 0, "cpp_harnesses_built_with_ASan_and_UBSan": 1 if (want_cpp and SANITIZE[0]) else 0}, [], [], []
     try:
         cm = None
         if want_cpp:
             try:
-                cm = C.CppModel(model.dir)
+                cm = C.CppModel(model.dir, sanitize=SANITIZE[0])
             except C.GeneratedCodeDoesNotCompile:
                 stats["generated_cpp_did_not_compile(discarded)"] = 1
         for proto in model.protocols():
@@ -532,7 +544,7 @@ def replay_doc(doc, ybin, root):
         newest = sw.unpack_pkg(doc["pkg"])
         model, _ = C05.open_models(newest, ybin, root)
         try:
-            cm = C.CppModel(model.dir)
+            cm = C.CppModel(model.dir, sanitize=SANITIZE[0])
             nb = cm.copyto[doc["protocol"]]
             data = bytes.fromhex(doc["payload_hex"])
             runs = [{"proto": doc["protocol"], "op": "relay", "in_fmt": "binary", "out_fmt": "ndjson", "input": 0, "batch": [1] * nb},
@@ -557,7 +569,7 @@ def replay_doc(doc, ybin, root):
         flat = sw.flat_values(proto, vals)
         cls = doc["violation"]["class"]
         if doc.get("lang") == "cpp" and doc["format"] == "ndjson":
-            cm = C.CppModel(model.dir)
+            cm = C.CppModel(model.dir, sanitize=SANITIZE[0])
             raw = codec.encode_ndjson(proto, ns, model.schema(proto), vals).encode("utf-8")
             res = cm.run_plan([raw], [{"proto": proto.name, "op": "relay", "in_fmt": "ndjson", "out_fmt": "ndjson", "input": 0, "batch": doc.get("batch") or [1] * cm.copyto[proto.name], "cut": doc["cut"]}])[0]
             if res.get("crashed"):
@@ -568,7 +580,7 @@ def replay_doc(doc, ybin, root):
             why = sw.is_prefix(env, ns, proto, flat, got, True)
             return bool(why) and cls == "wrong_value_before_error", why or "error reported: %s" % res.get("what")
         if doc.get("lang") == "cpp":
-            cm = C.CppModel(model.dir)
+            cm = C.CppModel(model.dir, sanitize=SANITIZE[0])
             data = codec.encode_stream(proto, ns, model.schema(proto), vals, parts)
             res = cm.run_plan([data], [{"proto": proto.name, "op": "relay", "in_fmt": "binary", "out_fmt": "ndjson", "input": 0, "batch": doc.get("batch") or [1] * cm.copyto[proto.name], "cut": doc["cut"]}])[0]
             if res.get("crashed"):
